@@ -40,7 +40,12 @@ lines += ["", "`vp check` request 1 (fresh copy, setup + every quick check once,
           "C65 had not observed the schedule-dependent class `min_difficulty_return` — schedule-dependent classes are no longer REQUIRED (C65, C21). "
           "`vp check` request 2 (after these corrections and after the strengthening of C16/C19/C20/C28/C36/C38/C64, all 65 checks registered; 85 min): nothing needed attention.", "",
           "Thorough tiers run to the end on the unchanged tree (VERIF_SEED=1, exit 0; evidence copies under `evidence_thorough/`): " + thorough_list() + ". "
-          "MANIFEST.json lists a `thorough_cmd` only for these; for the other checks the thorough configuration exists (`./vcheck <ID> --tier thorough`) but was only slice-tested and is not registered.", ""]
+          "MANIFEST.json lists a `thorough_cmd` only for these; for the other checks the thorough configuration exists (`./vcheck <ID> --tier thorough`) but was only slice-tested and is not registered.", "",
+          "Session of 2026-09-22 22:35 (30 minutes): thorough tiers of C58, C64 and C56 were started together (VERIF_SEED=1). C58 ran to the end "
+          "(384 sessions, 6 095 deliveries, 90 distinct non-trivial outcomes, 0 violations, 449 s) and is now registered with a `thorough_cmd`. "
+          "C64 (256 of 1 280 sessions after 6 min) and C56 (about 7 of 75 cases per shard after 7 min, with 48 harness processes on 16 cores) "
+          "were stopped by the operator for lack of time - neither had produced a violation record; they stay registered with the quick tier only. "
+          "Measured cost for planning a later run: C64-thorough about 25-30 min, C56-thorough about 40-60 min on 16 otherwise idle cores.", ""]
 lines += ["### 10.8 Independently seeded changes (kept under `/verif/seeded/<id>/`: patch.diff, demo.diff, meta.json)",
           "Produced by fresh sub-agents that were given only the property text and a scratch git worktree (nothing from /verif). Each change compiles, keeps every existing `test_bitcoin` suite green, "
           "and comes with a demonstration test that passes without and fails with the change; all of that was re-confirmed by the coordinator (`lib/seedeval.sh confirm`). "
